@@ -549,6 +549,7 @@ def alphabet(s, tree, M):
 # setters share one key (all refuse through setMassFracs' zero-density test).
 KEYNAME = {"removeMass": "addMass", "addMasses": "addMass", "setMasses": "setMass", "setMassFracs": "setMassFrac"}
 MASSFRAC_OPS = ("setMassFrac", "setMassFracs", "adjustMassFrac")
+REST_MIN = 1e-30  # mass fraction below which the unlisted nuclides count as absent (trace level)
 CONTRACT = {"ValueError"}  # documented refusals: nuclide held by no child; zero density in setMassFracs
 MASS_OPS = ("addMass", "removeMass", "setMass", "addMasses", "setMasses")
 
@@ -879,7 +880,11 @@ def _readback(s, M, obj, op, a, Tpre, Tpost, pre, tag, case):
             listed = dict(a["d"])
             keep = set()
         rest = {n: v for n, v in old.items() if n not in listed and n not in keep}
-        wellposed = sum(rest.values()) > 0 or close(sum(listed.values()) + sum(old[n] for n in keep), 1.0)
+        # "remaining nuclides" must exist to absorb the difference.  Nuclides at trace level
+        # (TRACE_NUMBER_DENSITY = 1e-50: "almost zero, so components remember which nuclides are
+        # where") are absent by ARMI's own convention: a remainder whose mass fraction is below
+        # REST_MIN cannot be asked to grow by 40 orders of magnitude.
+        wellposed = sum(rest.values()) > REST_MIN or close(sum(listed.values()) + sum(old[n] for n in keep), 1.0)
         if not wellposed:
             return vs  # nothing can absorb the difference: the request has no solution, no oracle
         got = obj.getMassFracs()
@@ -1338,5 +1343,5 @@ def run(ctx):
         "finite value alphabet: x0.5, x2, 0, trace, fixed masses/fractions (DESIGN 1.4); one dimension set per shape class; 6 materials x 2 temperature pairs",
         "component volumes are closed-form functions of the hot dimensions read through getDimension (thermal expansion itself is C03's subject); atomic weights and Avogadro's number are taken from the nuclide directory / units module",
         "assemblies have blocks of equal area (documented assumption of Assembly.getVolume); third-core model without edge assemblies (symmetry factors 3 and 1)",
-        "natural-element and isotopic nuclides of the same element are never mixed in one object; mass-fraction requests are checked only when some unlisted nuclide with mass can absorb the difference",
+        "natural-element and isotopic nuclides of the same element are never mixed in one object; mass-fraction requests are checked only when some unlisted nuclide with more than trace-level mass (fraction > 1e-30) can absorb the difference",
     ]
